@@ -166,10 +166,11 @@ func sanitize(s string) string {
 // components, string literals, uninterpreted helpers.
 
 type Comp struct {
-	ValTyp types.Type // Go type of the stored values (fields, cells, slice elements), if known
-	Name   string     // SMT base name
-	Sort   string     // SMT sort of the whole component
-	Kind   string     // field, cell, elems, mapdom, mapval, maplen, ghost, global, alloc
+	ValTyp  types.Type // Go type of the stored values (fields, cells, slice elements), if known
+	Name    string     // SMT base name
+	Sort    string     // SMT sort of the whole component
+	Kind    string     // field, cell, elems, mapdom, mapval, maplen, ghost, global, alloc
+	KeySort string     // ghost components: sort of the key
 }
 
 type StructInfo struct {
